@@ -5,16 +5,23 @@
 // script: comma separated   S:<Key>:<valhex>  A:<Key>:<valhex>  H:<code>  W:<hex>  R:<n>:<bytehex>  F   ("-" = empty)
 //        m <exchange>;<exchange>;...   several exchanges (each an `f ...` op, on its own connection) run in this order in
 //        one process state: statusLine()'s process-wide Status-Line cache is emptied before the first one only
+//        p <exchange A>;<exchange B>   two responses on two connections, interleaved: A stalls in its first write to the
+//        client socket (inside the head if the head exceeds the 4 KB connection buffer), B is written completely, A resumes.
+//        result as for m.  Script action SR:<Key>:<n>:<bytehex> = Header().Set(Key, n copies of the byte).
+//        q <na> <nb>   the same interleaving for bfe_http.Request.Write towards a backend (A: 5000-byte header + na keys,
+//        B: nb keys); result `<A equals its sequential bytes 0|1> <B …>`
 // result: <closeAfterReply 0|1> <requestBodyLimitHit 0|1> <write results, one digit each|-> <unread request bytes> <hex of bytes on the wire, Date value replaced by D>
 package main
 
 import (
+	"bytes"
 	"fmt"
 	"regexp"
 	"strconv"
 	"strings"
 
 	"bfeverif/harness/internal/vh"
+	"github.com/bfenetworks/bfe/bfe_http"
 	"github.com/bfenetworks/bfe/bfe_server"
 )
 
@@ -28,6 +35,13 @@ func parseScript(s string) ([]bfe_server.VerifC27Action, bool) {
 	for _, a := range strings.Split(s, ",") {
 		f := strings.Split(a, ":")
 		switch {
+		case f[0] == "SR" && len(f) == 4:
+			n, err := strconv.Atoi(f[2])
+			v, ok := vh.UnHex(f[3])
+			if err != nil || !ok || len(v) != 1 || n < 0 || n > 1<<16 {
+				return nil, false
+			}
+			out = append(out, bfe_server.VerifC27Action{Kind: 'S', Key: f[1], Val: strings.Repeat(string(v), n)})
 		case (f[0] == "S" || f[0] == "A") && len(f) == 3:
 			v, ok := vh.UnHex(f[2])
 			if !ok {
@@ -64,6 +78,27 @@ func parseScript(s string) ([]bfe_server.VerifC27Action, bool) {
 
 func exec(op string) string {
 	bfe_server.VerifC27ResetStatusCache()
+	bfe_http.VerifC27DrainSorterCache()
+	if strings.HasPrefix(op, "p ") {
+		es := strings.Split(op[2:], ";")
+		if len(es) != 2 {
+			return "bad-op"
+		}
+		ia, ka, sa, oka := parseOne(es[0])
+		ib, kb, sb, okb := parseOne(es[1])
+		if !oka || !okb {
+			return "bad-op"
+		}
+		ra, rb, hang := bfe_server.VerifC27RunPair(bfe_server.VerifC27Exchange{Input: ia, KeepAlive: ka, Script: sa},
+			bfe_server.VerifC27Exchange{Input: ib, KeepAlive: kb, Script: sb})
+		if hang {
+			return "HANG"
+		}
+		return renderRes(ra) + ";" + renderRes(rb)
+	}
+	if strings.HasPrefix(op, "q ") {
+		return execReqPair(op)
+	}
 	if strings.HasPrefix(op, "m ") {
 		var rs []string
 		for _, e := range strings.Split(op[2:], ";") {
@@ -74,20 +109,21 @@ func exec(op string) string {
 	return execOne(op)
 }
 
-func execOne(op string) string {
+// parseOne turns an `f ...` op into the request bytes, the keep-alive switch and the handler script.
+func parseOne(op string) (input []byte, keepAlive bool, script []bfe_server.VerifC27Action, ok bool) {
 	f := strings.Split(op, " ")
 	if len(f) != 7 || f[0] != "f" {
-		return "bad-op"
+		return nil, false, nil, false
 	}
 	method, proto := f[1], f[2]
 	if (method != "GET" && method != "HEAD" && method != "POST") || (proto != "10" && proto != "11") {
-		return "bad-op"
+		return nil, false, nil, false
 	}
-	conn, ok := vh.UnHex(f[3])
+	conn, ok1 := vh.UnHex(f[3])
 	rb, err := strconv.Atoi(f[5])
 	script, ok2 := parseScript(f[6])
-	if !ok || !ok2 || err != nil || rb < 0 || rb > 1<<20 || (f[4] != "0" && f[4] != "1") {
-		return "bad-op"
+	if !ok1 || !ok2 || err != nil || rb < 0 || rb > 1<<20 || (f[4] != "0" && f[4] != "1") {
+		return nil, false, nil, false
 	}
 	var b strings.Builder
 	b.WriteString(method + " /p HTTP/1." + proto[1:] + "\r\nHost: h\r\n")
@@ -99,7 +135,10 @@ func execOne(op string) string {
 	}
 	b.WriteString("\r\n")
 	b.WriteString(strings.Repeat("b", rb))
-	r := bfe_server.VerifC27Run([]byte(b.String()), f[4] == "1", script)
+	return []byte(b.String()), f[4] == "1", script, true
+}
+
+func renderRes(r bfe_server.VerifC27Result) string {
 	if r.ReadErr != "" {
 		return "readerr"
 	}
@@ -113,6 +152,50 @@ func execOne(op string) string {
 		wr = sb.String()
 	}
 	return fmt.Sprintf("%d %d %s %d %s", b2i(r.CloseAfterReply), b2i(r.LimitHit), wr, r.BodyLeft, vh.Hex(out))
+}
+
+func execOne(op string) string {
+	input, ka, script, ok := parseOne(op)
+	if !ok {
+		return "bad-op"
+	}
+	return renderRes(bfe_server.VerifC27Run(input, ka, script))
+}
+
+// execReqPair: Request.Write of two backend requests, sequentially (reference) and interleaved.
+func execReqPair(op string) string {
+	f := strings.Split(op, " ")
+	if len(f) != 3 {
+		return "bad-op"
+	}
+	na, e1 := strconv.Atoi(f[1])
+	nb, e2 := strconv.Atoi(f[2])
+	if e1 != nil || e2 != nil || na < 0 || nb < 0 || na > 50 || nb > 50 {
+		return "bad-op"
+	}
+	mk := func(id string, n int, big bool) *bfe_http.Request {
+		r, err := bfe_http.NewRequest("GET", "http://backend/"+id, nil)
+		if err != nil {
+			panic(err)
+		}
+		r.State = new(bfe_http.RequestState) // Request.Write records the body size there (ReadRequest always sets it)
+		if big {
+			r.Header.Set("A-Big", strings.Repeat("a", 5000))
+		}
+		r.Header.Set("X-Id", id)
+		for i := 0; i < n; i++ {
+			r.Header.Set(fmt.Sprintf("X-K%02d", i), fmt.Sprintf("%s%d", id, i))
+		}
+		return r
+	}
+	var sa, sb, ia, ib bytes.Buffer
+	mk("a", na, true).Write(&sa)
+	mk("b", nb, false).Write(&sb)
+	bfe_http.VerifC27DrainSorterCache()
+	if bfe_http.VerifC27WriteRequestsInterleaved(mk("a", na, true), &ia, mk("b", nb, false), &ib) {
+		return "HANG"
+	}
+	return fmt.Sprintf("%d %d", b2i(bytes.Equal(sa.Bytes(), ia.Bytes())), b2i(bytes.Equal(sb.Bytes(), ib.Bytes())))
 }
 
 func b2i(b bool) int {
@@ -176,7 +259,66 @@ func (e exch) withStatus(code string) exch {
 	return e
 }
 
+// genPair: two responses written at the same time.  A usually carries a 5000-byte header (its head
+// overflows the 4 KB connection buffer, so A stalls INSIDE Header.WriteSubset); B has at most as many keys.
+func genPair(r *vh.Rand) string {
+	side := func(id string, big bool, maxKeys int) exch {
+		e := exch{method: r.Pick("GET", "GET", "GET", "HEAD", "POST"), proto: r.Pick("11", "11", "10"), conn: "-", ka: "1"}
+		if e.proto == "10" && r.Chance(1, 2) {
+			e.conn = hx("keep-alive")
+		}
+		n := r.Range(0, 12)
+		if r.Chance(1, 4) {
+			n = sizes[r.Intn(len(sizes))]
+		}
+		keys := 1
+		if big {
+			e.acts = append(e.acts, "SR:A-Big:5000:61")
+			keys++
+		}
+		e.acts = append(e.acts, "S:X-Id:"+hx(id))
+		if keys < maxKeys && !r.Chance(1, 5) {
+			e.acts = append(e.acts, "S:Content-Length:"+hx(strconv.Itoa(n)))
+			keys++
+		}
+		if keys < maxKeys && r.Chance(1, 2) {
+			e.acts = append(e.acts, "S:Content-Type:"+hx("text/"+id))
+			keys++
+		}
+		for k := 0; keys < maxKeys && r.Chance(1, 2); k++ {
+			e.acts = append(e.acts, fmt.Sprintf("S:X-K%d:%s", k, hx(id+strconv.Itoa(k))))
+			keys++
+		}
+		if r.Chance(2, 3) {
+			e.acts = append(e.acts, "H:"+r.Pick("200", "200", "200", "404", "206", "500"))
+		}
+		if n > 0 {
+			e.acts = append(e.acts, fmt.Sprintf("R:%d:%02x", n, id[0]))
+		}
+		if r.Chance(1, 6) {
+			e.acts = append(e.acts, "F")
+		}
+		return e
+	}
+	a := side("a", !r.Chance(1, 4), 8)
+	na := 0
+	for _, x := range a.acts {
+		if x[0] == 'S' {
+			na++
+		}
+	}
+	b := side("b", false, na)
+	return "p " + a.String() + ";" + b.String()
+}
+
 func gen(r *vh.Rand) string {
+	if r.Chance(1, 14) {
+		return genPair(r)
+	}
+	if r.Chance(1, 100) {
+		na := r.Range(0, 6)
+		return fmt.Sprintf("q %d %d", na, r.Range(0, na+1))
+	}
 	if !r.Chance(1, 4) {
 		return genOne(r).String()
 	}
